@@ -1,9 +1,9 @@
-\* FASTA and FASTQ: files of 1-2 records over 5 adversarial shapes, every buffer size 2..Len+1
+\* FASTA and FASTQ: files of 1-3 records over 4 shapes, every buffer size
 CONSTANTS
   Fmts = {"fasta", "fastq"}
-  Sel <- SelQuick
+  Sel <- SelThree
   Big = FALSE
-  MaxRecs = 2
+  MaxRecs = 3
   FinalEols = {TRUE, FALSE}
   MinB = 2
   Mode = "chunk"
